@@ -66,7 +66,7 @@ def exec_part(ctx):
     lines = open(os.path.join(d, tr)).read().splitlines()
     if not lines:
         raise core.Broken("trace-t1exec produced no events")
-    cfg = ("CONSTANTS\n" + pscommon.PS_CONSTS + '  TraceFile = "%s"\n  BaseHeap <- FreshHeap\n'
+    cfg = ("CONSTANTS\n" + pscommon.ps_consts(ctx) + '  TraceFile = "%s"\n  BaseHeap <- FreshHeap\n'
            "INIT Init\nNEXT Next\nINVARIANT Holds\nPOSTCONDITION Accepted\nCHECK_DEADLOCK FALSE\n")
     res = ctx.tlc("TraceT1Exec", cfg % tr, workers=1, label="trace-t1exec", must_pass=False, timeout=2400, xss="512m")
     if not res.ok:
